@@ -102,6 +102,8 @@ structure Ctx where
   takeValuedNamed : Bool := true
   /-- before the repair of F9a every skipped requirement was recorded in the input set -/
   skipRecordsInput : Bool := false
+  /-- a named vertex entered from another named vertex takes that vertex's value (repair of F22) -/
+  hopCopies : Bool := true
   /-- when the recorded oracle is exhausted, choose paths with the greedy legal pop order
       (used to run the model on its own: enumeration, crashed scenarios) -/
   auto : Bool := false
@@ -193,9 +195,16 @@ def walkStep (c : Ctx) (rec : Vtx → CallSt → Except RErr ArgMap × CallSt) (
     | .root => { w with prev := some v }
     | .value .. =>
       let old := w.s.get v
+      -- entered from the same-named value that has a subtype (the one edge between two named values), the
+      -- vertex keeps that value (repair of finding F22)
+      let hop : Option PVal := match w.prev with
+        | some (.value n t st) => if c.hopCopies then w.s.get (.value n t st) else none
+        | _ => none
       let s1 := match prevOut with
         | some p => w.s.set v (w.s.get p)
-        | none => w.s
+        | none => match hop with
+          | some x => w.s.set v (some x)
+          | none => w.s
       let s2 := { s1 with last := if c.publishAfterUpdate then s1.get v else old }
       { w with s := s2, prev := some v, final := match s2.get v with | some x => some x | none => w.final }
     | .arg t _ =>
